@@ -95,8 +95,13 @@ def tla_def(d):
     tasks = {}
     for t, td in d["tasks"].items():
         r = td["retry"]
+        bad = ""
+        for k, nm in (("actionx", "action"), ("inputx", "input"), ("itemsx", "items"), ("concbad", "conc"), ("delayx", "delay")):
+            if td.get(k):
+                bad = nm
+        rbad = "count" if r.get("countx") else ("delay" if r.get("delayx") else "")
         tasks[t] = {"join": td["join"], "items": td["items"], "conc": td["conc"],
-                    "delay": td["delay"],
+                    "delay": td["delay"], "bad": bad, "rbad": rbad,
                     "retry": {"on": r["on"], "count": r["count"], "when": tla_cond(r["when"]),
                               "delay": r["delay"]},
                     "next": [{"when": tla_cond(n["when"]),
@@ -115,7 +120,9 @@ def after_event(r, lazy=False):
         r.query()
     else:
         r.settle()
-    if r.c.get_workflow_status() in COMPLETED and not r.__dict__.get("rendered"):
+    # the provider renders the output whenever the workflow is completed (after every event, as
+    # StackStorm does; the conductor itself renders only while it has no output yet)
+    if r.c.get_workflow_status() in COMPLETED:
         r.render()
         r.rendered = True
 
